@@ -7,6 +7,15 @@ CLAIMED = {
  'C05': ("Coq proof over the list model of FitInfo.keep (Keep.v: antitone-prefix lemma, 6x6 composition law) + exhaustive correspondence of the extracted model with FitInfo.keep",
          "Theorems C05_A/N/CDEF/prefix/columns/looser_first/idempotent hold for ranked lists of any length over extended rationals; the extracted nkeep is run against FitInfo.keep on every ranked vector of length <=4 (<=5 thorough) over {0,1,2.5,7,inf,nan} x every selector x every selector pair, plus random long vectors.",
          "Trusts: Coq kernel; ExtrOcamlBasic+ExtrOcamlZBigInt; ocaml driver; harness (generator, comparison, oracle). numpy's comparison/slicing semantics are exercised, not proved. Thresholds equal to an attained value are outside the property.", "DESIGN.md 7/C05"),
+ 'C01': ("Coq proof that the code-shaped 2x2 regression + clamp + re-solved scale minimises the weighted objective over [lo,hi] x Q (and over R via Q2R), chi2 = S + limit penalties; correspondence of the extracted model with Fitter.fit on generated packages",
+         "Theorems C01_optimal/optimal_real/scale_pattern/nonsingular/m22/grid over rationals of any size, any number of bands and models; extracted fit2_pkg (extinction law, log-flux transform, regression, clamp, chi2) compared with Fitter.fit on aperture-independent packages; oracle re-evaluates the property's objective exactly at the implementation's (A_V, scale).",
+         "Trusts: Coq kernel; stdlib real-number axioms for C01_optimal_real only (ClassicalDedekindReals.sig_forall_dec, FunctionalExtensionality.functional_extensionality_dep); extraction; driver float oracles for log10/ln; harness. Float rounding enters as tolerance 1e-10 x condition number; singular regressions are outside the quantifier.", "DESIGN.md 7/C01"),
+ 'C02': ("Coq proofs for the distance grid (ceil formula, uniform grid with both ends), aperture interpolation/clamp, per-distance clipped optimum and first-minimum argmin (Grid.v, Fit3.v, Fit3Proofs.v); correspondence of the extracted fit3_pkg with Fitter.fit on aperture-dependent packages",
+         "Theorems C02_grid/grid_ends/flux*/av/min for any sizes; extracted ndist, gridlog_m and fit3_pkg compared tie-robustly (at the distance the implementation reports) with Fitter.fit; oracle recomputes the documented flux (interpolated, clamped, x (1kpc/d)^2) and checks grid minimality.",
+         "Trusts: Coq kernel; extraction; driver float oracles; harness; np.log10/np.logspace as oracles. Exact argmin ties and 1+L/step within 1e-9 of an integer are not compared. remove_resolved (find_radius_sigma) is not modelled.", "DESIGN.md 7/C02"),
+ 'C03': ("Coq proofs that unfitted bands have zero weight and never enter the least-squares sums, chi2 = S + penalties exactly when violated, confidence 0/1 clauses, flag 4 = transformed flag 1 (Flags.v, FlagsProofs.v); exhaustive flag-vector correspondence through one Fitter",
+         "Theorems C03_weights/not_in_lsq/not_in_lsq_3d/unused_chi2/penalty/conf0/conf1/flag4; every flag vector over {0,1,2,3,4,9}^n (n<=3 quick, <=5 thorough) x random photometry: base source vs hostile ignored values, confidence-0 limits vs flag 0, flag-4 rewrite, changed limit values, in both fit modes, bit-exact between implementation runs and against the model.",
+         "Trusts: Coq kernel; extraction; driver; harness. Near-ties of a prediction with a limit are not judged.", "DESIGN.md 7/C03"),
  'C20': ("Coq proof over the statement-by-statement model of Source.from_ascii (SrcAscii.v: slices, strides, truncating division, setter cross-checks) + correspondence on generated token lists incl. every column count",
          "Theorems C20_layout/reject/accept/flags/eof hold for token lists of any length; the extracted from_ascii_m is run against Source.from_ascii on valid lines (all flag vectors n<=3), every column count 0..3n+6 for n<=12, bad flags, bad numbers; round trips through to_ascii, dict and pickle are checked against the printed precision.",
          "Trusts: Coq kernel; extraction directives; driver; harness. int()/float() conversion of tokens is an oracle computed by Python; text formatting (to_ascii) is exercised, not modelled.", "DESIGN.md 7/C20"),
